@@ -252,8 +252,6 @@ def check_detector(case):
         assert_same_closedness(y, back, det_name)
     _, got = K.sparse_events(back)
     thr = getattr(det, "threshold_", 0.0)
-    if thr is not None and thr < 0:
-        return {"nontrivial": False, "classes": ["negative_tuned_threshold_excluded"]}
     if got != events:
         raise Violation(f"{det_name}: dense_to_sparse(transform(X)) != predict(X)",
                         predict=[list(e) if isinstance(e, tuple) else e for e in events],
